@@ -84,7 +84,7 @@ class Ctx:
             for o in outputs:
                 try: os.remove(os.path.join(ROOT, o))
                 except FileNotFoundError: pass
-            rc, so, se = sh(["go", "run", "./extract", what, REPO, ROOT], cwd=GO, env=GOENV, timeout=600)
+            rc, so, se = sh(["go", "run", "./extract", what, os.path.realpath(REPO), ROOT], cwd=GO, env=GOENV, timeout=600)
         if rc != 0:
             self.log("extract %s failed:\n%s%s" % (what, so, se))
         return rc == 0, so + se
@@ -200,12 +200,22 @@ class Ctx:
         return {"ok": ok and not failed, "failed": sorted(set(failed)), "reasons": reasons, "theorems": [n for n, _ in thms]}
 
     # ---------------------------------------------------------------- Go harness
+    def go_modfile_args(self):
+        """harness go.mod replaces kafka-go with /repo; for VERIF_REPO=<other tree> use an alternate modfile"""
+        if os.path.realpath(REPO) == "/repo":
+            return []
+        alt = os.path.join(BUILD, "alt-%s.mod" % hashlib.md5(REPO.encode()).hexdigest()[:8])
+        src = open(os.path.join(GO, "go.mod")).read().replace("=> /repo", "=> " + os.path.realpath(REPO))
+        open(alt, "w").write(src)
+        shutil.copy(os.path.join(GO, "go.sum"), alt[:-4] + ".sum")
+        return ["-modfile=" + alt]
+
     def go_build(self, pkg, name, tags="verif", race=False):
         out = os.path.join(BUILD, name)
         try: os.remove(out)
         except FileNotFoundError: pass
         env = dict(GOENV)
-        cmd = ["go", "build", "-tags", tags, "-o", out]
+        cmd = ["go", "build"] + self.go_modfile_args() + ["-tags", tags, "-o", out]
         if race:
             env["CGO_ENABLED"] = "1"; cmd.append("-race")
         cmd.append(pkg)
@@ -288,7 +298,7 @@ class Ctx:
                       how_to_rerun="cd /verif && ./check %s --replay %s" % (self.prop, path))
         with open(path, "w") as f:
             json.dump(replay, f, indent=1)
-        self.violations.append({"path": path, "found": failing_input_found})
+        self.violations.append({"path": path, "found": failing_input_found, "input": replay.get("input")})
         return True
 
     def finish(self):
@@ -304,8 +314,12 @@ class Ctx:
               "violations": len(self.violations)}
         with open(os.path.join(ROOT, "evidence", self.prop + ".json"), "w") as f:
             json.dump(ev, f, indent=1)
-        for v in self.violations[:20]:
+        for v in self.violations[:5]:
             print("VIOLATION property=%s replay=%s%s" % (self.prop, v["path"], "" if v["found"] else " no-failing-input-found"), flush=True)
         self.log("done: obligations %d/%d, cases %d, violations %d, known %d" % (
             cov["discharged"], cov["obligations"], cov["evaluations"], len(self.violations), len(self.known_hits)))
+        if self.replay:
+            want = json.load(open(self.replay)).get("input")
+            hit = [v for v in self.violations if want is not None and v.get("input") == want]
+            print("REPLAY %s: %s" % (self.replay, "reproduced" if hit else ("not reproduced (input no longer fails)" if want is not None else "obligation replay: see violations above")), flush=True)
         return 1 if self.violations else 0
